@@ -395,7 +395,7 @@ Proof.
                      tag x = wgen (ks me) /\ valid_ku (body x) = false /\ mdata (body x) = []).
       { intros x Hx. apply in_map_iff in Hx. destruct Hx as [m [Hm Hin]]. subst x.
         split; [reflexivity|]. unfold pha_reply in Hin.
-        destruct (dev (cf (note_ctx me ctx)) =? 6); cbn [In] in Hin;
+        destruct (dev (cf (note_ctx me ctx)) =? 6); [|destruct (dev (cf (note_ctx me ctx)) =? 7)]; cbn [In] in Hin;
           repeat (destruct Hin as [Hin|Hin]; [subst m; split; reflexivity|]); destruct Hin. }
       split; [apply in_step_nk; intros x Hx; destruct (Hrep x Hx); tauto|].
       split; [apply chdata_nodata; intros x Hx; destruct (Hrep x Hx); tauto|].
@@ -420,6 +420,8 @@ Proof.
         (split; [exact A|]); (split; [try reflexivity; split; reflexivity|]); (split; [reflexivity|]);
         (split; [intros Hv; split; [try apply noku_nil; intros x [Hx|[]]; subst x; reflexivity|auto]|]);
         (split; [rewrite C; reflexivity|]); (split; [reflexivity|]); (split; [exact D|]); (split; [exact E|reflexivity]).
+    + apply die_post; [exact Hpre|rewrite Eb; reflexivity|rewrite Eb; reflexivity|apply same_core_refl|exact Ha].
+    + apply die_post; [exact Hpre|rewrite Eb; reflexivity|rewrite Eb; reflexivity|apply same_core_refl|exact Ha].
 Qed.
 
 (* ---- one operation preserves the invariant ------------------------------------------------- *)
